@@ -739,6 +739,55 @@ func (x *Exec) evalCall(env *SpecEnv, e ECall) Val {
 		}
 		return Val{T: mkIte(lt, b.T, a.T), Typ: a.Typ}
 	}
+	switch e.Fun {
+	case "mulfits", "addfits", "subfits":
+		// the mathematical result of the operation on the two operands fits their Go type
+		a, b := x.unify(x.evalVal(env, e.Args[0]), x.evalVal(env, e.Args[1]))
+		bt := types.Typ[types.Bool]
+		if x.mode == ModeBV {
+			uns := isUnsigned(a.Typ)
+			var t string
+			switch {
+			case e.Fun == "mulfits" && uns:
+				t = app("bvumul_noovfl", a.T, b.T)
+			case e.Fun == "mulfits":
+				t = fmt.Sprintf("(and (bvsmul_noovfl %s %s) (bvsmul_noudfl %s %s))", a.T.S, b.T.S, a.T.S, b.T.S)
+			default:
+				// widen by one bit and compare
+				w, _ := intWidth(a.Typ.Underlying().(*types.Basic))
+				ext := "sign_extend"
+				if uns {
+					ext = "zero_extend"
+				}
+				op := "bvadd"
+				if e.Fun == "subfits" {
+					op = "bvsub"
+				}
+				wide := fmt.Sprintf("(%s ((_ %s 1) %s) ((_ %s 1) %s))", op, ext, a.T.S, ext, b.T.S)
+				narrow := fmt.Sprintf("((_ %s 1) (%s %s %s))", ext, op, a.T.S, b.T.S)
+				_ = w
+				t = fmt.Sprintf("(= %s %s)", wide, narrow)
+			}
+			return Val{T: Term{t, "Bool"}, Typ: bt}
+		}
+		op := map[string]string{"mulfits": "*", "addfits": "+", "subfits": "-"}[e.Fun]
+		return Val{T: inRange(Term{app(op, a.T, b.T), "Int"}, a.Typ), Typ: bt}
+	}
+	if env.fr != nil {
+		for _, p := range env.fr.fn.Params {
+			if sig, ok := p.Type().Underlying().(*types.Signature); ok && p.Name() == e.Fun {
+				var args []Val
+				for i, a := range e.Args {
+					av := x.evalVal(env, a)
+					if i < sig.Params().Len() {
+						av = x.coerce(av, sig.Params().At(i).Type())
+					}
+					args = append(args, av)
+				}
+				return x.ufCall(p.Name(), args, sig, env.cur)
+			}
+		}
+	}
 	if p, ok := x.DB.Preds[e.Fun]; ok {
 		if env.predDepth > 8 {
 			panic(specErr("predicate expansion too deep at %s", e.Fun))
